@@ -216,7 +216,8 @@ PROPS['C03'] = floor_prop(
     ('d ',), 'implementation traces are produced with the deep-copy probe at every clock advance; non-trivial = a scenario '
              'in which some device waited for downstream space', runner='ProbeRunner',
     # floorl / sys: devices constructed mid-run behind a blocked upstream ("connection added")
-    families=[('floorc', 80, 1500), ('floor', 50, 1000), ('floors', 120, 2500), ('floorq', 40, 800), ('floorl', 40, 800), ('sys', 40, 800), ('floorn', 0, 0)],
+    # floork: cycle times set / offset while a part is held (a slot freed at the end of a cycle whose cycle time reads 0)
+    families=[('floorc', 80, 1500), ('floor', 50, 1000), ('floors', 120, 2500), ('floorq', 40, 800), ('floorl', 40, 800), ('sys', 40, 800), ('floork', 40, 800), ('floorn', 0, 0)],
     nontrivial=lambda st, s: any(l.startswith('d ') and ' wds=1 ' in l for l in st))
 PROPS['C04'] = floor_prop(
     'C04', ['SimProc.Props.C04', 'SimProc.Props.C04W'], ['SimProc/Props/C04.lean', 'SimProc/Props/C04W.lean'],
